@@ -9,7 +9,7 @@ code->spec: grids of (offset, length, size, contents, value) through C (any, lit
 import concurrent.futures
 import struct
 
-from .. import tlc
+from .. import lemmas, tlc
 from ..core import MachineryFailure, NCPU
 from ..harness_prims import NativePrims, PyPrims
 
@@ -146,6 +146,8 @@ def gen_cases(ctx, rng):
 
 def run(ctx):
     rng = ctx.rng
+    # 0. unbounded arithmetic lemmas about SatBits / PadUp / bits2bytes (TLA+ proof system), in the background
+    lemma_job = concurrent.futures.ThreadPoolExecutor(max_workers=1).submit(lemmas.run_arith, ctx)
     # 1. design: the byte-wise algorithm refines the pointwise contract
     tlc.check_model(ctx, "BitPrims", ctx.pick("BitPrims", "BitPrims_2"), constants="Level=%d (offsets 0..%d, lengths 0..%d)" % (ctx.pick(1, 2), ctx.pick(9, 15), ctx.pick(17, 20)), timeout=3000)
     # 2. drivers from the current tree
@@ -269,6 +271,9 @@ def run(ctx):
                        "targets C any, C little, C++ bitspan (+ASan builds in thorough), Python; distinct = (event, target, offset, length, size, width, command hash)"
                        % (len([c for c in cases if c[0]["ev"] == "unpack"]), len(f32s)))
     ctx.cov["exhaustive"] = False
+    nproved = lemma_job.result()
+    if nproved:
+        ctx.cov["unbounded_lemmas"] = "ArithLemmas.tla: %d proof obligations discharged by tlapm (SatBits / PadUp / bits2bytes for all naturals)" % nproved
     ctx.assumptions += ["TLC + BitPrimsP/Ieee specs are the oracle", "the property's sweep over all 2^32 float32 values is replaced by the structured boundary set + random (DESIGN §7)"]
 
 
